@@ -1263,10 +1263,16 @@ fn run_sequential(args: &Args, rec: &mut Recorder) {
 /// call `FsyncCoalescingCore::work` makes through the libc crate lands here (the static link
 /// resolves the executable's own symbol first).  For the watched descriptor it notes how long the
 /// file was when the call was ISSUED, makes the real system call, and publishes that length as
-/// durable only when the call has returned: an fdatasync promises nothing about bytes written after
-/// it was issued.  It can hold one call open after the system call (a slow device), which lets a
-/// directed scenario queue other callers behind the fsync leader.  Every other descriptor is passed
-/// straight through.
+/// durable only when the call has returned 0: an fdatasync promises nothing about bytes written
+/// after it was issued, and a failed one promises nothing at all.  It can hold one call open after
+/// the system call (a slow device), which lets a directed scenario queue other callers behind the
+/// fsync leader.  It can make chosen calls FAIL (return -1, errno EIO): the calls number
+/// `FAIL_FROM .. FAIL_TO` of the watched descriptor, either without making the system call or
+/// (`FAIL_REAL`) after making it — the device reports an error either way, and what the probe
+/// publishes follows the REPORTED result.  Every call is logged with a tick of a process-wide
+/// logical clock (the harness ticks the same clock when an append begins and returns), and, when
+/// the sync42 event log is on, as `probe.issue` / `probe.ret` events of the calling thread.
+/// Every other descriptor is passed straight through.
 mod sync_probe {
     use std::sync::atomic::{AtomicBool, AtomicI32, AtomicU64, Ordering::SeqCst};
     pub static WATCH_FD: AtomicI32 = AtomicI32::new(-1);
@@ -1275,6 +1281,30 @@ mod sync_probe {
     pub static HOLD_NEXT: AtomicBool = AtomicBool::new(false);
     pub static HELD: AtomicBool = AtomicBool::new(false);
     pub static RELEASE: AtomicBool = AtomicBool::new(false);
+    /// calls number `FAIL_FROM <= k < FAIL_TO` (1-based, of the watched descriptor) fail
+    pub static FAIL_FROM: AtomicU64 = AtomicU64::new(0);
+    pub static FAIL_TO: AtomicU64 = AtomicU64::new(0);
+    pub static FAIL_REAL: AtomicBool = AtomicBool::new(false);
+    pub static CLOCK: AtomicU64 = AtomicU64::new(0);
+    pub static LOG: std::sync::Mutex<Vec<Call>> = std::sync::Mutex::new(Vec::new());
+
+    #[derive(Clone, Debug)]
+    pub struct Call {
+        pub k: u64,
+        /// file length when the call was issued
+        pub len: u64,
+        /// what the caller was told
+        pub ok: bool,
+        pub syscall_made: bool,
+        pub issue_tick: u64,
+        pub ret_tick: u64,
+        /// the probe's durable length right after this call
+        pub durable_after: u64,
+    }
+
+    pub fn tick() -> u64 {
+        CLOCK.fetch_add(1, SeqCst) + 1
+    }
 
     fn len_of(fd: i32) -> u64 {
         unsafe {
@@ -1289,8 +1319,12 @@ mod sync_probe {
             return unsafe { libc::syscall(libc::SYS_fdatasync, fd) as libc::c_int };
         }
         let len_when_issued = len_of(fd);
-        CALLS.fetch_add(1, SeqCst);
-        let ret = unsafe { libc::syscall(libc::SYS_fdatasync, fd) as libc::c_int };
+        let k = CALLS.fetch_add(1, SeqCst) + 1;
+        let issue_tick = tick();
+        sync42::verif::emit("probe.issue", [k, len_when_issued, 0]);
+        let fail = FAIL_FROM.load(SeqCst) <= k && k < FAIL_TO.load(SeqCst);
+        let syscall_made = !fail || FAIL_REAL.load(SeqCst);
+        let mut ret = if syscall_made { unsafe { libc::syscall(libc::SYS_fdatasync, fd) as libc::c_int } } else { -1 };
         if HOLD_NEXT.swap(false, SeqCst) {
             HELD.store(true, SeqCst);
             let t0 = std::time::Instant::now();
@@ -1299,8 +1333,18 @@ mod sync_probe {
             }
             HELD.store(false, SeqCst);
         }
+        if fail {
+            ret = -1;
+        }
         if ret == 0 {
             DURABLE_LEN.fetch_max(len_when_issued, SeqCst);
+        }
+        let durable_after = DURABLE_LEN.load(SeqCst);
+        let ret_tick = tick();
+        LOG.lock().unwrap().push(Call { k, len: len_when_issued, ok: ret == 0, syscall_made, issue_tick, ret_tick, durable_after });
+        sync42::verif::emit("probe.ret", [k, (ret == 0) as u64, durable_after]);
+        if ret != 0 {
+            unsafe { *libc::__errno_location() = libc::EIO };
         }
         ret
     }
@@ -1312,6 +1356,20 @@ mod sync_probe {
         HOLD_NEXT.store(false, SeqCst);
         HELD.store(false, SeqCst);
         RELEASE.store(false, SeqCst);
+        FAIL_FROM.store(0, SeqCst);
+        FAIL_TO.store(0, SeqCst);
+        FAIL_REAL.store(false, SeqCst);
+        LOG.lock().unwrap().clear();
+    }
+
+    pub fn fail_calls(from: u64, to: u64, real: bool) {
+        FAIL_REAL.store(real, SeqCst);
+        FAIL_TO.store(to, SeqCst);
+        FAIL_FROM.store(from, SeqCst);
+    }
+
+    pub fn take_log() -> Vec<Call> {
+        std::mem::take(&mut *LOG.lock().unwrap())
     }
 }
 use std::sync::atomic::Ordering::SeqCst;
@@ -1327,6 +1385,25 @@ struct ConcPlan {
     directed: u8,
     wb: Option<usize>,
     desc: String,
+    /// fdatasync calls of the log that the probe makes fail
+    fault: Option<Fault>,
+    /// record the sync42 event log (and the harness's own `h.op` / `probe.*` events) of the run:
+    /// the fsync rounds (who was in which batch, whether a call was made, what it returned) are
+    /// then part of the request the model replays
+    events: bool,
+    /// directed fault plans: number of appenders queued behind the leader, an earlier completed
+    /// append P, a late append Z after everything
+    roles: (usize, bool, bool),
+}
+
+/// which calls of the watched descriptor fail: numbers `from <= k < to` (1-based; for directed plans
+/// relative to the calls made before the script arms the probe), with or without the system call
+#[derive(Clone, Debug)]
+struct Fault {
+    from: u64,
+    to: u64,
+    real: bool,
+    kind: &'static str,
 }
 
 fn conc_entry(rng: &mut Rng, t: usize, b: usize, j: usize, put: bool, vlen: usize) -> Ent {
@@ -1364,7 +1441,70 @@ fn conc_plan(seed: u64, i: u64, thorough: bool) -> ConcPlan {
     let fsync_only: Vec<usize> = if with_fsyncs { (0..rng.below(3)).map(|_| 1 + rng.below(2 * per as u64) as usize).collect() } else { vec![] };
     let desc = format!("threads={} per={} {} fsync_calls={}", nt, per, if heavy { "heavy" } else if medium { "medium" } else { "light" },
         fsync_before.iter().flatten().filter(|x| **x).count() + fsync_only.iter().sum::<usize>());
-    ConcPlan { threads, fsync_before, fsync_only, directed: 0, wb, desc }
+    ConcPlan { threads, fsync_before, fsync_only, directed: 0, wb, desc, fault: None, events: false, roles: (0, false, false) }
+}
+
+/// stream 8, free running: a light or medium plan of stream 6's generator (own seed stream) with
+/// a seeded failure of the log's fdatasync: the k-th call, every call from the k-th on, or one
+/// call in the middle of the run
+fn fault_plan(seed: u64, i: u64, thorough: bool) -> ConcPlan {
+    // an index that is never `heavy` in `conc_plan`
+    let mut plan = conc_plan(seed, 100_000 + i * 10, thorough);
+    let mut rng = Rng::for_case(seed, 8, i);
+    let appends: u64 = plan.threads.iter().map(|b| b.len() as u64).sum();
+    let (from, to, kind) = match i % 3 {
+        0 => {
+            let k = 1 + rng.below(4);
+            (k, k + 1, "kth")
+        }
+        1 => {
+            let k = 1 + rng.below(5);
+            (k, u64::MAX, "from-kth-on")
+        }
+        _ => {
+            // the number of calls a run makes is schedule dependent (1 ..= appends + fsync()s):
+            // aim at the middle of what a well-coalesced run makes
+            let k = 2 + rng.below((appends / 3).max(1));
+            (k, k + 1, "middle")
+        }
+    };
+    let real = rng.chance(1, 3);
+    plan.fault = Some(Fault { from, to, real, kind });
+    plan.events = true;
+    plan.desc = format!("{} fault={}:{}{}", plan.desc, kind, from, if real { ":syscall-made" } else { "" });
+    plan
+}
+
+/// stream 8, directed (thread 0 = A, the held fsync leader; threads 1..=n = the appenders queued
+/// behind it; then P, an earlier completed append; then Z, an append after everything):
+///   kind 3: A and B share one coalesced WRITE; one of them leads the fsync queue alone and its
+///           call FAILS while the other reaches the fsync queue only afterwards (next round)
+///   kind 4: A's call succeeds; the round behind it {Y1..Yn} FAILS: all n must see the error; Z ok
+///   kind 5: A's call FAILS; the round behind it {Y1..Yn} succeeds: only they (and Z) return Ok
+fn directed_fault_plan(seed: u64, i: u64, kind: u8) -> ConcPlan {
+    let mut rng = Rng::for_case(seed, 9, i);
+    let n_y = if kind == 3 { 1 } else { 1 + rng.below(3) as usize };
+    let has_p = rng.chance(1, 2);
+    let has_z = kind != 3 || rng.chance(1, 2);
+    let nt = 1 + n_y + has_p as usize + has_z as usize;
+    let mut threads = vec![];
+    for t in 0..nt {
+        let ne = 1 + rng.below(3) as usize;
+        let vmax = *rng.pick(&[40u64, 300, 5000]);
+        threads.push(vec![(0..ne).map(|j| { let v = rng.below(vmax) as usize; conc_entry(&mut rng, t, 0, j, true, v) }).collect::<Batch>()]);
+    }
+    let fsync_before = threads.iter().map(|b| vec![false; b.len()]).collect();
+    let real = rng.chance(1, 3);
+    // call numbers relative to the moment the script arms the probe (after P)
+    let fault = match kind { 4 => Fault { from: 2, to: 3, real, kind: "directed" }, _ => Fault { from: 1, to: 2, real, kind: "directed" } };
+    let desc = match kind {
+        3 => "directed fault: two appends in one coalesced write; the first one's fdatasync FAILS, the other queues for the next round",
+        4 => "directed fault: leader's fdatasync ok; the round of appenders queued behind it FAILS",
+        _ => "directed fault: leader's fdatasync FAILS; the round of appenders queued behind it succeeds",
+    };
+    ConcPlan { threads, fsync_before, fsync_only: vec![], directed: kind, wb: None,
+        desc: format!("{} (behind={} earlier={} later={}{})", desc, n_y, has_p, has_z, if real { " syscall-made" } else { "" }),
+        fault: Some(fault), events: true, roles: (n_y, has_p, has_z) }
 }
 
 /// the two directed schedules (thread 0 = A, the held fsync leader; threads 1, 2 = the appends
@@ -1379,7 +1519,7 @@ fn directed_plan(seed: u64, i: u64, kind: u8) -> ConcPlan {
         threads.push(vec![(0..ne).map(|j| { let v = rng.below(vmax) as usize; conc_entry(&mut rng, t, 0, j, true, v) }).collect::<Batch>()]);
     }
     let fsync_before = threads.iter().map(|b| vec![false; b.len()]).collect();
-    ConcPlan { threads, fsync_before, fsync_only: vec![], directed: kind, wb: None,
+    ConcPlan { threads, fsync_before, fsync_only: vec![], directed: kind, wb: None, fault: None, events: false, roles: (0, false, false),
         desc: if kind == 1 { "directed: append, then fsync() caller, behind a held fsync leader".into() } else { "directed: earlier append done; two appends, then fsync() caller, behind a held fsync leader".into() } }
 }
 
@@ -1392,7 +1532,23 @@ struct Ret {
     snap_fnv: u64,
     /// the largest file length covered by an fdatasync that had returned when the call returned
     durable: u64,
+    /// ticks of the probe's logical clock just before the call and just after it returned
+    begin_tick: u64,
+    end_tick: u64,
 }
+
+/// one `ConcurrentLogBuilder::fsync()` call: thread (appender threads first, then the fsync-only
+/// ones), index (the append it precedes / its number), result
+#[derive(Clone, Debug)]
+struct FsyncRet {
+    t: usize,
+    i: usize,
+    res: String,
+    begin_tick: u64,
+    end_tick: u64,
+}
+
+type Event = (u64, u64, &'static str, [u64; 3]);
 
 struct ConcRun {
     rets: Vec<Ret>,
@@ -1401,6 +1557,21 @@ struct ConcRun {
     notes: Vec<String>,
     /// directed plans: the intended queue order was reached
     conclusive: bool,
+    fsyncs: Vec<FsyncRet>,
+    /// the probe's log of the log's fdatasync calls (in-process runs)
+    calls: Vec<sync_probe::Call>,
+    /// sync42 event log (plans with `events`)
+    events: Vec<Event>,
+}
+
+impl ConcRun {
+    fn failed(seal: String, notes: Vec<String>, conclusive: bool) -> ConcRun {
+        ConcRun { rets: vec![], seal, notes, conclusive, fsyncs: vec![], calls: vec![], events: vec![] }
+    }
+}
+
+fn panic_ret(t: usize) -> Ret {
+    Ret { t, i: usize::MAX, res: "panic".into(), snap_len: 0, snap_fnv: 0, durable: 0, begin_tick: 0, end_tick: 0 }
 }
 
 fn marker(fd: Option<i32>, s: &str) {
@@ -1421,9 +1592,12 @@ fn open_log(plan: &ConcPlan, path: &str) -> Result<ConcurrentLogBuilder<std::fs:
 
 /// one append with its markers and what is observed the moment it has returned
 fn one_append(clb: &ConcurrentLogBuilder<std::fs::File>, path: &str, mfd: Option<i32>, t: usize, i: usize, wb: Result<WriteBatch, String>) -> Ret {
+    let mut begin_tick = 0;
     let res = match wb {
         Ok(wb) => {
             marker(mfd, &format!("B {} {}\n", t, i));
+            sync42::verif::emit("h.op", [t as u64, i as u64, 0]);
+            begin_tick = sync_probe::tick();
             let r = clb.append(wb);
             marker(mfd, &format!("R {} {}\n", t, i));
             match r {
@@ -1434,9 +1608,37 @@ fn one_append(clb: &ConcurrentLogBuilder<std::fs::File>, path: &str, mfd: Option
         Err(m) => format!("batch:{}", m),
     };
     let durable = sync_probe::DURABLE_LEN.load(SeqCst);
+    let end_tick = sync_probe::tick();
+    sync42::verif::emit("h.end", [t as u64, i as u64, 0]);
     // what the file holds at the moment the call has returned
     let snap = std::fs::read(path).unwrap_or_default();
-    Ret { t, i, res, snap_len: snap.len(), snap_fnv: fnv(&snap), durable }
+    Ret { t, i, res, snap_len: snap.len(), snap_fnv: fnv(&snap), durable, begin_tick, end_tick }
+}
+
+/// one `fsync()` call
+fn one_fsync(clb: &ConcurrentLogBuilder<std::fs::File>, t: usize, i: usize) -> FsyncRet {
+    sync42::verif::emit("h.op", [t as u64, i as u64, 1]);
+    let begin_tick = sync_probe::tick();
+    let r = clb.fsync();
+    let end_tick = sync_probe::tick();
+    sync42::verif::emit("h.end", [t as u64, i as u64, 1]);
+    FsyncRet { t, i, res: match r { Ok(()) => "ok".into(), Err(e) => code(&e) }, begin_tick, end_tick }
+}
+
+fn events_begin(plan: &ConcPlan) {
+    if plan.events {
+        let _ = sync42::verif::take_events();
+        sync42::verif::events_enable(true);
+    }
+}
+
+fn events_end(plan: &ConcPlan) -> Vec<Event> {
+    if plan.events {
+        sync42::verif::events_enable(false);
+        sync42::verif::take_events()
+    } else {
+        vec![]
+    }
 }
 
 fn conc_execute(plan: &ConcPlan, path: &str, mfd: Option<i32>) -> Result<ConcRun, String> {
@@ -1446,68 +1648,80 @@ fn conc_execute(plan: &ConcPlan, path: &str, mfd: Option<i32>) -> Result<ConcRun
     guarded(std::panic::AssertUnwindSafe(|| {
         let clb = match open_log(plan, path) {
             Ok(c) => c,
-            Err(e) => return ConcRun { rets: vec![], seal: e, notes: vec![], conclusive: true },
+            Err(e) => return ConcRun::failed(e, vec![], true),
         };
+        if let Some(f) = &plan.fault {
+            sync_probe::fail_calls(f.from, f.to, f.real);
+        }
+        events_begin(plan);
         let barrier = std::sync::Barrier::new(plan.threads.len() + plan.fsync_only.len());
         let mut rets: Vec<Ret> = vec![];
+        let mut fsyncs: Vec<FsyncRet> = vec![];
         let notes = std::sync::Mutex::new(Vec::<String>::new());
+        let nt = plan.threads.len();
         std::thread::scope(|s| {
             let hs: Vec<_> = plan
                 .threads
                 .iter()
                 .enumerate()
                 .map(|(t, bs)| {
-                    let (clb, barrier, notes) = (&clb, &barrier, &notes);
+                    let (clb, barrier) = (&clb, &barrier);
                     s.spawn(move || {
                         let built: Vec<Result<WriteBatch, String>> = bs.iter().map(build_batch).collect();
                         barrier.wait();
                         let mut out = vec![];
+                        let mut fs = vec![];
                         for (i, wb) in built.into_iter().enumerate() {
                             if plan.fsync_before[t][i] {
-                                if let Err(e) = clb.fsync() {
-                                    notes.lock().unwrap().push(format!("fsync() by thread {} failed: {}", t, code(&e)));
-                                }
+                                fs.push(one_fsync(clb, t, i));
                             }
                             out.push(one_append(clb, path, mfd, t, i, wb));
                         }
-                        out
+                        (out, fs)
                     })
                 })
                 .collect();
             let fs: Vec<_> = plan
                 .fsync_only
                 .iter()
-                .map(|n| {
-                    let (clb, barrier, notes) = (&clb, &barrier, &notes);
+                .enumerate()
+                .map(|(x, n)| {
+                    let (clb, barrier) = (&clb, &barrier);
                     s.spawn(move || {
                         barrier.wait();
-                        for _ in 0..*n {
-                            if let Err(e) = clb.fsync() {
-                                notes.lock().unwrap().push(format!("fsync() failed: {}", code(&e)));
-                            }
+                        let mut fs = vec![];
+                        for i in 0..*n {
+                            fs.push(one_fsync(clb, nt + x, i));
                             std::thread::yield_now();
                         }
+                        fs
                     })
                 })
                 .collect();
             for (t, h) in hs.into_iter().enumerate() {
                 match h.join() {
-                    Ok(v) => rets.extend(v),
-                    Err(_) => rets.push(Ret { t, i: usize::MAX, res: "panic".into(), snap_len: 0, snap_fnv: 0, durable: 0 }),
+                    Ok((v, f)) => {
+                        rets.extend(v);
+                        fsyncs.extend(f);
+                    }
+                    Err(_) => rets.push(panic_ret(t)),
                 }
             }
             for h in fs {
-                if h.join().is_err() {
-                    notes.lock().unwrap().push("fsync() caller panicked".into());
+                match h.join() {
+                    Ok(f) => fsyncs.extend(f),
+                    Err(_) => notes.lock().unwrap().push("fsync() caller panicked".into()),
                 }
             }
         });
+        let events = events_end(plan);
         sync_probe::WATCH_FD.store(-1, SeqCst);
+        let calls = sync_probe::take_log();
         let seal = match clb.seal() {
             Ok((s, _file)) => s.hexdigest(),
             Err(e) => format!("seal:{}", code(&e)),
         };
-        ConcRun { rets, seal, notes: notes.into_inner().unwrap(), conclusive: true }
+        ConcRun { rets, seal, notes: notes.into_inner().unwrap(), conclusive: true, fsyncs, calls, events }
     }))
 }
 
@@ -1552,18 +1766,22 @@ fn wait_flag(ms: u64, f: impl Fn() -> bool) -> bool {
 /// put a stale watermark last; the only pause point there, the end of `do_work`, still holds the
 /// write core's lock, so it cannot be staged with the present hooks.)
 fn conc_execute_directed(plan: &ConcPlan, path: &str, mfd: Option<i32>) -> Result<ConcRun, String> {
-    let park_count = |ev: &[(u64, u64, &'static str, [u64; 3])]| ev.iter().filter(|e| e.2 == "wcq.park").count();
+    if plan.directed >= 3 {
+        return conc_execute_directed_fault(plan, path, mfd);
+    }
+    let park_count = |ev: &[Event]| ev.iter().filter(|e| e.2 == "wcq.park").count();
     guarded(std::panic::AssertUnwindSafe(|| {
         let mut notes: Vec<String> = vec![];
         let clb = match open_log(plan, path) {
             Ok(c) => c,
-            Err(e) => return ConcRun { rets: vec![], seal: e, notes, conclusive: false },
+            Err(e) => return ConcRun::failed(e, notes, false),
         };
         let _ = sync42::verif::take_events();
         sync42::verif::events_enable(true);
         let mut seen = vec![];
         let mut ok = true;
         let mut rets: Vec<Ret> = vec![];
+        let mut fsyncs: Vec<FsyncRet> = vec![];
         let n_y = if plan.directed == 2 { 2 } else { 1 };
         std::thread::scope(|s| {
             let clb = &clb;
@@ -1588,18 +1806,18 @@ fn conc_execute_directed(plan: &ConcPlan, path: &str, mfd: Option<i32>) -> Resul
                 handles.push(spawn_append(1 + k));
                 ok &= wait_events(&mut seen, 10000, |ev| park_count(ev) >= parked_before + 1 + k);
             }
-            let f = s.spawn(move || clb.fsync().map_err(|e| code(&e)));
+            let nt = plan.threads.len();
+            let f = s.spawn(move || one_fsync(clb, nt, 0));
             ok &= wait_events(&mut seen, 10000, |ev| park_count(ev) >= parked_before + 1 + n_y);
             sync_probe::RELEASE.store(true, SeqCst);
             for h in handles {
                 match h.join() {
                     Ok(r) => rets.push(r),
-                    Err(_) => rets.push(Ret { t: 9, i: usize::MAX, res: "panic".into(), snap_len: 0, snap_fnv: 0, durable: 0 }),
+                    Err(_) => rets.push(panic_ret(9)),
                 }
             }
             match f.join() {
-                Ok(Ok(())) => {}
-                Ok(Err(c)) => notes.push(format!("fsync() failed: {}", c)),
+                Ok(r) => fsyncs.push(r),
                 Err(_) => notes.push("fsync() caller panicked".into()),
             }
         });
@@ -1609,7 +1827,7 @@ fn conc_execute_directed(plan: &ConcPlan, path: &str, mfd: Option<i32>) -> Resul
         // never holds more than one caller here).  Threads in order of appearance: [P,] A, Y1, ...
         let mut order: Vec<u64> = vec![];
         for e in &seen {
-            if !order.contains(&e.1) {
+            if e.2.starts_with("wcq.") && !order.contains(&e.1) {
                 order.push(e.1);
             }
         }
@@ -1622,12 +1840,125 @@ fn conc_execute_directed(plan: &ConcPlan, path: &str, mfd: Option<i32>) -> Resul
             }
         }
         sync_probe::WATCH_FD.store(-1, SeqCst);
+        let calls = sync_probe::take_log();
         let seal = match clb.seal() {
             Ok((s, _file)) => s.hexdigest(),
             Err(e) => format!("seal:{}", code(&e)),
         };
-        ConcRun { rets, seal, notes, conclusive: ok }
+        ConcRun { rets, seal, notes, conclusive: ok, fsyncs, calls, events: if plan.events { seen } else { vec![] } }
     }))
+}
+
+/// The schedules with a FAILING fdatasync (`directed_fault_plan`).  As above every step waits for
+/// an observable condition; the two windows that are a few instructions wide (two callers linked
+/// into the write queue before the head collects its batch; the member of a coalesced write
+/// reaching the fsync queue well after the leader, or the other way round) are widened with the
+/// sync42 pause points (`wcq.link`: a caller sleeps right after linking, holding nothing;
+/// `wcq.leave` / `wcq.clear`: the member / the leader of a finished batch sleeps before it leaves
+/// `do_work`), which are removed as soon as the condition they serve has been observed.  Whether
+/// the intended rounds were formed is decided afterwards from the event log (`conclusive`); the
+/// oracle does not depend on it.
+fn conc_execute_directed_fault(plan: &ConcPlan, path: &str, mfd: Option<i32>) -> Result<ConcRun, String> {
+    let count = |ev: &[Event], tag: &str| ev.iter().filter(|e| e.2 == tag).count();
+    let clear_pauses = || {
+        sync42::verif::set_pause("wcq.link", 0, 0);
+        sync42::verif::set_pause("wcq.leave", 0, 0);
+        sync42::verif::set_pause("wcq.leave", 1, 0);
+        sync42::verif::set_pause("wcq.clear", 0, 0);
+    };
+    let r = guarded(std::panic::AssertUnwindSafe(|| {
+        let mut notes: Vec<String> = vec![];
+        let clb = match open_log(plan, path) {
+            Ok(c) => c,
+            Err(e) => return ConcRun::failed(e, notes, false),
+        };
+        let _ = sync42::verif::take_events();
+        sync42::verif::events_enable(true);
+        let mut seen: Vec<Event> = vec![];
+        let mut ok = true;
+        let mut rets: Vec<Ret> = vec![];
+        let (n_y, has_p, has_z) = plan.roles;
+        let (t_p, t_z) = (1 + n_y, 1 + n_y + has_p as usize);
+        let fault = plan.fault.clone().unwrap();
+        std::thread::scope(|s| {
+            let clb = &clb;
+            let spawn_append = |t: usize| {
+                let wb = build_batch(&plan.threads[t][0]);
+                s.spawn(move || one_append(clb, path, mfd, t, 0, wb))
+            };
+            let mut handles = vec![];
+            if has_p {
+                match spawn_append(t_p).join() {
+                    Ok(r) => rets.push(r),
+                    Err(_) => ok = false,
+                }
+            }
+            let base = sync_probe::CALLS.load(SeqCst);
+            sync_probe::fail_calls(base + fault.from, base + fault.to, fault.real);
+            sync_probe::HOLD_NEXT.store(true, SeqCst);
+            seen.extend(sync42::verif::take_events());
+            if plan.directed == 3 {
+                let links_before = count(&seen, "wcq.link");
+                sync42::verif::set_pause("wcq.link", 0, 30_000);
+                sync42::verif::set_pause("wcq.leave", 0, 60_000);
+                sync42::verif::set_pause("wcq.leave", 1, 60_000);
+                sync42::verif::set_pause("wcq.clear", 0, 30_000);
+                handles.push(spawn_append(0));
+                handles.push(spawn_append(1));
+                // both are linked into the write queue (each sleeps where it linked): whoever is
+                // head collects both into one write
+                ok &= wait_events(&mut seen, 10000, |ev| count(ev, "wcq.link") >= links_before + 2);
+                sync42::verif::set_pause("wcq.link", 0, 0);
+                // one of them leads the fsync queue alone and sits in the (failing) call ...
+                ok &= wait_flag(10000, || sync_probe::HELD.load(SeqCst));
+                seen.extend(sync42::verif::take_events());
+                let parked = seen.iter().rposition(|e| e.2 == "probe.issue").map(|p| count(&seen[p..], "wcq.park")).unwrap_or(0);
+                // ... and the other reaches the fsync queue behind it
+                if parked == 0 {
+                    let n0 = seen.len();
+                    ok &= wait_events(&mut seen, 10000, |ev| count(&ev[n0.min(ev.len())..], "wcq.park") >= 1);
+                }
+                clear_pauses();
+            } else {
+                handles.push(spawn_append(0));
+                ok &= wait_flag(10000, || sync_probe::HELD.load(SeqCst));
+                seen.extend(sync42::verif::take_events());
+                let parked_before = count(&seen, "wcq.park");
+                for k in 0..n_y {
+                    handles.push(spawn_append(1 + k));
+                    ok &= wait_events(&mut seen, 10000, |ev| count(ev, "wcq.park") >= parked_before + 1 + k);
+                }
+            }
+            sync_probe::RELEASE.store(true, SeqCst);
+            for h in handles {
+                match h.join() {
+                    Ok(r) => rets.push(r),
+                    Err(_) => rets.push(panic_ret(9)),
+                }
+            }
+            if has_z {
+                match spawn_append(t_z).join() {
+                    Ok(r) => rets.push(r),
+                    Err(_) => rets.push(panic_ret(t_z)),
+                }
+            }
+        });
+        sync42::verif::events_enable(false);
+        seen.extend(sync42::verif::take_events());
+        if !ok {
+            notes.push("intended queue order not reached".into());
+        }
+        sync_probe::WATCH_FD.store(-1, SeqCst);
+        let calls = sync_probe::take_log();
+        let seal = match clb.seal() {
+            Ok((s, _file)) => s.hexdigest(),
+            Err(e) => format!("seal:{}", code(&e)),
+        };
+        ConcRun { rets, seal, notes, conclusive: ok, fsyncs: vec![], calls, events: seen }
+    }));
+    clear_pauses();
+    sync_probe::RELEASE.store(true, SeqCst);
+    r
 }
 
 /// one syscall of the strace log
@@ -1671,19 +2002,146 @@ fn parse_strace(text: &str, log_path: &str) -> Vec<Sys> {
     out
 }
 
+/// one batch of the fsync queue, reconstructed from the event log
+#[derive(Debug)]
+struct Round {
+    /// (thread, index, kind: 0 append / 1 fsync()) of every member, leader first
+    members: Vec<(usize, usize, u8)>,
+    /// the fdatasync the leader made, if it made one: (number, file length at issue, reported ok)
+    call: Option<(u64, u64, bool)>,
+    /// the probe's durable length when the round's answers were handed out
+    durable_after: u64,
+}
+
+/// The rounds of the FSYNC queue.  Events carry the emitting thread; `h.op [t, i, kind]` says which
+/// harness operation the thread is in.  Inside an append the first `wcq.link` is the write queue,
+/// the second the fsync queue; inside an `fsync()` the only one is the fsync queue.  A round is
+/// opened by the leader's `wcq.lead`, its members are the owners of the slots of its
+/// `wcq.deliver`s, its system call the `probe.issue` / `probe.ret` the leader emits in between.
+fn fsync_rounds(ev: &[Event]) -> Result<Vec<Round>, String> {
+    use std::collections::HashMap;
+    let mut cur: HashMap<u64, ((usize, usize, u8), u32)> = HashMap::new();
+    let mut slot_owner: HashMap<u64, (usize, usize, u8)> = HashMap::new();
+    let mut open: HashMap<u64, (Round, usize)> = HashMap::new();
+    let mut rounds = vec![];
+    let mut durable = 0u64;
+    for e in ev {
+        let (th, tag, a) = (e.1, e.2, e.3);
+        match tag {
+            "h.op" => {
+                cur.insert(th, ((a[0] as usize, a[1] as usize, a[2] as u8), 0));
+                continue;
+            }
+            "h.end" => {
+                cur.remove(&th);
+                continue;
+            }
+            "probe.issue" => {
+                match open.get_mut(&th) {
+                    Some(r) => r.0.call = Some((a[0], a[1], false)),
+                    None => return Err(format!("fdatasync number {} outside a round of the fsync queue", a[0])),
+                }
+                continue;
+            }
+            "probe.ret" => {
+                durable = a[2];
+                if let Some(r) = open.get_mut(&th) {
+                    if let Some(c) = r.0.call.as_mut() {
+                        c.2 = a[1] != 0;
+                    }
+                }
+                continue;
+            }
+            _ => {}
+        }
+        let st = match cur.get_mut(&th) {
+            Some(st) => st,
+            None => continue,
+        };
+        if tag == "wcq.link" {
+            st.1 += 1;
+        }
+        let fsync_queue = st.0 .2 == 1 || st.1 >= 2;
+        if !fsync_queue {
+            continue;
+        }
+        match tag {
+            "wcq.link" => {
+                slot_owner.insert(a[0], st.0);
+            }
+            "wcq.lead" => {
+                open.insert(th, (Round { members: vec![], call: None, durable_after: 0 }, a[1] as usize));
+            }
+            "wcq.deliver" => {
+                let owner = slot_owner.get(&a[1]).copied();
+                match (open.get_mut(&th), owner) {
+                    (Some(r), Some(o)) => r.0.members.push(o),
+                    _ => return Err(format!("hand-out to slot {} that nobody is known to hold", a[1])),
+                }
+            }
+            "wcq.leader_unlink" => {
+                if let Some((mut r, taken)) = open.remove(&th) {
+                    if r.members.len() != taken {
+                        return Err(format!("a leader took {} and answered {}", taken, r.members.len()));
+                    }
+                    r.durable_after = durable;
+                    rounds.push(r);
+                }
+            }
+            _ => {}
+        }
+    }
+    if !open.is_empty() {
+        return Err("a round of the fsync queue never finished".into());
+    }
+    Ok(rounds)
+}
+
 struct ConcOutcome {
     req: String,
     obs: String,
     verdict: Verdict,
+    /// directed plans: the intended rounds were formed
+    conclusive: bool,
 }
 
 fn conc_analyse(rec: &mut Recorder, plan: &ConcPlan, path: &str, run: &ConcRun, trace: Option<&str>) -> ConcOutcome {
     let bytes = std::fs::read(path).unwrap_or_default();
     let mut fails: Vec<String> = vec![];
     let total: usize = plan.threads.iter().map(|b| b.len()).sum();
-    // every call returned Ok
-    if run.rets.len() != total || run.rets.iter().any(|r| r.res != "ok") {
-        fails.push(format!("append-results: {:?}", run.rets.iter().filter(|r| r.res != "ok").map(|r| format!("{}/{}:{}", r.t, r.i, r.res)).collect::<Vec<_>>()));
+    // every call returned, and returned Ok — unless an fdatasync of the log FAILED while the call
+    // was in progress (issued after the call began, returned before the call returned): then
+    // `corruption-fsync-failed` (append) / `corruption-log-poisoned` (fsync()) is the error the code
+    // surfaces.  Without a failing call (every run of stream 6) this is "every call returned Ok".
+    let failed_calls: Vec<&sync_probe::Call> = run.calls.iter().filter(|c| !c.ok).collect();
+    let justified = |b: u64, e: u64| failed_calls.iter().any(|c| c.issue_tick > b && c.ret_tick < e);
+    if run.rets.len() != total {
+        fails.push(format!("append-results: {} of {} appends returned", run.rets.len(), total));
+    }
+    let mut appends_err = 0u64;
+    for r in &run.rets {
+        match r.res.as_str() {
+            "ok" => {}
+            "corruption-fsync-failed" if justified(r.begin_tick, r.end_tick) => appends_err += 1,
+            _ => fails.push(format!("append-results: {}/{}:{} (no fdatasync of the log failed while it was in progress)", r.t, r.i, r.res)),
+        }
+    }
+    let mut fsyncs_err = 0u64;
+    for f in &run.fsyncs {
+        match f.res.as_str() {
+            "ok" => {}
+            "corruption-log-poisoned" if justified(f.begin_tick, f.end_tick) => fsyncs_err += 1,
+            _ => fails.push(format!("fsync() by thread {} failed: {} (no fdatasync of the log failed while it was in progress)", f.t, f.res)),
+        }
+    }
+    // an error of the device is surfaced: some call that was in progress around the failed
+    // fdatasync returned an error
+    for c in &failed_calls {
+        let told = run.rets.iter().any(|r| r.res != "ok" && r.begin_tick < c.issue_tick && c.ret_tick < r.end_tick)
+            || run.fsyncs.iter().any(|f| f.res != "ok" && f.begin_tick < c.issue_tick && c.ret_tick < f.end_tick);
+        if !told {
+            fails.push(format!("fdatasync number {} of the log failed and no caller was told", c.k));
+        }
     }
     // drain with the REAL reader; identify every entry by its key prefix (thread, batch, index)
     let mut order: Vec<(usize, usize)> = vec![]; // batches in file order
@@ -1736,12 +2194,21 @@ fn conc_analyse(rec: &mut Recorder, plan: &ConcPlan, path: &str, run: &ConcRun, 
         order.push((t, b));
         p += want.len();
     }
-    if fails.is_empty() && seen.len() != total {
-        fails.push(format!("{} of {} batches in the file", seen.len(), total));
+    // every acknowledged batch is in the file (one that was answered with an error need not be:
+    // the code writes it before it syncs, so it is there, and the model's file has it, but the
+    // property does not ask for it)
+    if fails.is_empty() {
+        for r in run.rets.iter().filter(|r| r.res == "ok") {
+            if !seen.contains(&(r.t, r.i)) {
+                fails.push(format!("batch {}/{} was acknowledged and is not in the file ({} of {} batches are)", r.t, r.i, seen.len(), total));
+            }
+        }
     }
     // grouping into frames: payload sizes from the walker
     let mut groups: Vec<Group> = vec![];
     let mut end_of: std::collections::BTreeMap<(usize, usize), usize> = Default::default();
+    // 1-based number of the frame that holds the batch
+    let mut frame_of: std::collections::BTreeMap<(usize, usize), usize> = Default::default();
     match walk(&bytes).and_then(|(fr, _)| logical(&fr)) {
         Ok(lf) => {
             let mut bi = 0;
@@ -1753,6 +2220,7 @@ fn conc_analyse(rec: &mut Recorder, plan: &ConcPlan, path: &str, run: &ConcRun, 
                     acc += batch_size(&plan.threads[t][b]);
                     g.push(plan.threads[t][b].clone());
                     end_of.insert((t, b), end);
+                    frame_of.insert((t, b), groups.len() + 1);
                     bi += 1;
                 }
                 if acc != size {
@@ -1781,7 +2249,7 @@ fn conc_analyse(rec: &mut Recorder, plan: &ConcPlan, path: &str, run: &ConcRun, 
         // caller's frame had RETURNED when the call returned
         match end_of.get(&(r.t, r.i)) {
             Some(e) if (r.durable as usize) < *e => fails.push(format!(
-                "append {}/{} returned with fdatasync coverage up to byte {} only, its frame ends at {} (no fdatasync was issued after its write)", r.t, r.i, r.durable, e)),
+                "append {}/{} returned Ok with successful fdatasync coverage up to byte {} only, its frame ends at {} (no fdatasync issued after its write had returned successfully)", r.t, r.i, r.durable, e)),
             Some(_) => rec.count("conc.appends_durable_at_return_in_process_probe"),
             None => {}
         }
@@ -1791,10 +2259,86 @@ fn conc_analyse(rec: &mut Recorder, plan: &ConcPlan, path: &str, run: &ConcRun, 
             fails.push(n.clone());
         }
     }
-    if plan.directed != 0 {
-        rec.count(&format!("conc.directed.kind{}.{}", plan.directed, if run.conclusive { "schedule_reached" } else { "schedule_not_reached" }));
+    // the rounds of the fsync queue (plans that record events): every member of a round whose
+    // call failed is told the error, every member of any other round is told Ok; the rounds with
+    // their outcomes are what the model replays
+    let mut sync_req = String::new();
+    let mut sync_obs = String::new();
+    let mut conclusive = run.conclusive;
+    if plan.events {
+        match fsync_rounds(&run.events) {
+            Ok(rounds) => {
+                let result_of = |m: &(usize, usize, u8)| -> Option<&str> {
+                    if m.2 == 0 { run.rets.iter().find(|r| r.t == m.0 && r.i == m.1).map(|r| r.res.as_str()) } else { run.fsyncs.iter().find(|f| f.t == m.0 && f.i == m.1).map(|f| f.res.as_str()) }
+                };
+                let (mut rq, mut ob) = (vec![], vec![]);
+                for (k, r) in rounds.iter().enumerate() {
+                    let answers: Vec<Option<&str>> = r.members.iter().map(result_of).collect();
+                    let all_ok = answers.iter().all(|a| *a == Some("ok"));
+                    let all_err = answers.iter().all(|a| matches!(a, Some(x) if *x != "ok"));
+                    let call_failed = matches!(r.call, Some((_, _, false)));
+                    if call_failed && !all_err {
+                        fails.push(format!("round {} of the fsync queue {:?}: its fdatasync failed and the members were answered {:?}", k, r.members, answers));
+                    }
+                    if !call_failed && !all_ok {
+                        fails.push(format!("round {} of the fsync queue {:?}: no fdatasync of it failed and the members were answered {:?}", k, r.members, answers));
+                    }
+                    let mut ms = vec![];
+                    for m in &r.members {
+                        match (m.2, frame_of.get(&(m.0, m.1))) {
+                            (1, _) => ms.push("0".to_string()),
+                            (_, Some(f)) => ms.push(f.to_string()),
+                            _ => fails.push(format!("member {}/{} of round {} has no frame in the file", m.0, m.1, k)),
+                        }
+                    }
+                    let letter = match r.call { None => "n".to_string(), Some((_, len, true)) => format!("o{}", len), Some((_, len, false)) => format!("f{}", len) };
+                    rq.push(format!("{}:{}", ms.join(","), letter));
+                    ob.push(format!("{}{}@{}", &letter[..1], if all_ok { "T" } else if all_err { "F" } else { "M" }, r.durable_after));
+                    rec.count(&format!("conc.rounds.{}", match r.call { None => "no_call_already_synced", Some((_, _, true)) => "call_ok", _ => "call_failed" }));
+                    if call_failed && r.members.len() > 1 {
+                        rec.count("conc.rounds.call_failed_with_2plus_members");
+                    }
+                }
+                rec.add("conc.rounds", rounds.len() as u64);
+                sync_req = format!(" sync {}", rq.join(" "));
+                sync_obs = format!(" sync={}", ob.join(","));
+                if plan.directed >= 3 {
+                    let (n_y, has_p, _) = plan.roles;
+                    let base = has_p as usize;
+                    let threads_of = |r: &Round| { let mut v: Vec<usize> = r.members.iter().map(|m| m.0).collect(); v.sort(); v };
+                    let failed = |r: &Round| matches!(r.call, Some((_, _, false)));
+                    let succeeded = |r: &Round| matches!(r.call, Some((_, _, true)));
+                    conclusive &= rounds.len() >= base + 2
+                        && match plan.directed {
+                            3 => {
+                                let (a, b) = (threads_of(&rounds[base]), threads_of(&rounds[base + 1]));
+                                a.len() == 1 && b.len() == 1 && a != b && a[0] <= 1 && b[0] <= 1 && failed(&rounds[base]) && end_of.get(&(0, 0)).is_some() && end_of.get(&(0, 0)) == end_of.get(&(1, 0))
+                            }
+                            4 => threads_of(&rounds[base]) == vec![0] && succeeded(&rounds[base]) && threads_of(&rounds[base + 1]) == (1..=n_y).collect::<Vec<_>>() && failed(&rounds[base + 1]),
+                            _ => threads_of(&rounds[base]) == vec![0] && failed(&rounds[base]) && threads_of(&rounds[base + 1]) == (1..=n_y).collect::<Vec<_>>() && succeeded(&rounds[base + 1]),
+                        };
+                }
+            }
+            Err(m) => fails.push(format!("event log: {}", m)),
+        }
     }
-    let kvs: Vec<Kv> = plan.threads.iter().flatten().flatten().map(|e| e.kv()).collect();
+    if plan.directed != 0 {
+        rec.count(&format!("conc.directed.kind{}.{}", plan.directed, if conclusive { "schedule_reached" } else { "schedule_not_reached" }));
+    }
+    if plan.fault.is_some() {
+        rec.count(if failed_calls.is_empty() { "conc.fault.runs_without_a_failing_call_spec_not_reached" } else { "conc.fault.runs_with_a_failing_call" });
+        rec.add("conc.fault.fdatasync_calls", run.calls.len() as u64);
+        rec.add("conc.fault.fdatasync_calls_failed", failed_calls.len() as u64);
+        rec.add("conc.fault.fdatasync_calls_failed_after_the_system_call_was_made", failed_calls.iter().filter(|c| c.syscall_made).count() as u64);
+        rec.add("conc.fault.appends_returned_err", appends_err);
+        rec.add("conc.fault.appends_returned_ok", run.rets.iter().filter(|r| r.res == "ok").count() as u64);
+        rec.add("conc.fault.fsync_calls_returned_err", fsyncs_err);
+        if failed_calls.iter().any(|c| run.calls.iter().any(|d| d.ok && d.k > c.k)) {
+            rec.count("conc.fault.runs_with_a_successful_call_after_a_failed_one");
+        }
+    }
+    // the seal covers what was written: the batches that are in the file
+    let kvs: Vec<Kv> = plan.threads.iter().enumerate().flat_map(|(t, bs)| bs.iter().enumerate().filter(|(b, _)| seen.contains(&(t, *b))).flat_map(|(_, b)| b.iter().map(|e| e.kv())).collect::<Vec<_>>()).collect();
     if run.seal != expected_setsum(&kvs) {
         fails.push(format!("sealed setsum {}", run.seal));
     }
@@ -1853,11 +2397,11 @@ fn conc_analyse(rec: &mut Recorder, plan: &ConcPlan, path: &str, run: &ConcRun, 
     if bytes.len() > BLOCK {
         rec.count("conc.files_over_a_block");
     }
-    let req = format!("log w {}", groups_tok(&groups));
-    let obs = format!("{} read={}:{:016x}:{}", summary(&bytes), delivered.len(), hash, if fails.iter().any(|f| f.starts_with("final-read")) { "err" } else { "end" });
+    let req = format!("log w {}{}", groups_tok(&groups), sync_req);
+    let obs = format!("{} read={}:{:016x}:{}{}", summary(&bytes), delivered.len(), hash, if fails.iter().any(|f| f.starts_with("final-read")) { "err" } else { "end" }, sync_obs);
     fails.truncate(4);
     let verdict = if fails.is_empty() { Verdict::Ok } else { Verdict::Fail { class: "concurrent".into(), detail: format!("[{}] {}", plan.desc, fails.join(" | ")) } };
-    ConcOutcome { req, obs, verdict }
+    ConcOutcome { req, obs, verdict, conclusive }
 }
 
 /// plan number `i` of a run: free-running plans first, then the directed ones
@@ -1891,6 +2435,9 @@ fn conc_child(args: &Args) {
             }
             for n in &r.notes {
                 s.push_str(&format!("note {}\n", n.replace('\n', " ")));
+            }
+            for f in r.fsyncs.iter().filter(|f| f.res != "ok") {
+                s.push_str(&format!("note fsync() by thread {} failed: {}\n", f.t, f.res));
             }
             s.push_str(&format!("conclusive {}\n", r.conclusive));
             s.push_str(&format!("seal {}\n", r.seal));
@@ -1933,12 +2480,12 @@ fn run_concurrent(args: &Args, rec: &mut Recorder, dir: &str) {
                 .args(["C12", "--seed", &args.seed.to_string(), "--tier", if th { "thorough" } else { "quick" }, "--conc-child", &i.to_string(), &path, &rets])
                 .status();
             let text = std::fs::read_to_string(&rets).unwrap_or_default();
-            let mut run = ConcRun { rets: vec![], seal: String::new(), notes: vec![], conclusive: true };
+            let mut run = ConcRun::failed(String::new(), vec![], true);
             let mut panic = None;
             for l in text.lines() {
                 let t: Vec<&str> = l.split(' ').collect();
                 match t[0] {
-                    "ret" if t.len() == 7 => run.rets.push(Ret { t: t[1].parse().unwrap(), i: t[2].parse().unwrap_or(usize::MAX), res: t[3].into(), snap_len: t[4].parse().unwrap(), snap_fnv: t[5].parse().unwrap(), durable: t[6].parse().unwrap() }),
+                    "ret" if t.len() == 7 => run.rets.push(Ret { t: t[1].parse().unwrap(), i: t[2].parse().unwrap_or(usize::MAX), res: t[3].into(), snap_len: t[4].parse().unwrap(), snap_fnv: t[5].parse().unwrap(), durable: t[6].parse().unwrap(), begin_tick: 0, end_tick: 0 }),
                     "seal" => run.seal = t.get(1).unwrap_or(&"").to_string(),
                     "note" => run.notes.push(t[1..].join(" ")),
                     "conclusive" => run.conclusive = t.get(1) == Some(&"true"),
@@ -2005,6 +2552,65 @@ fn run_padding(args: &Args, rec: &mut Recorder) {
     }
 }
 
+// ---------------------------------------------------------------------------------------------
+// stream 8: concurrent appends with a FAILING fdatasync (after the older streams: their case
+// numbers stay what they were).  In-process only: the failure is the probe's.
+fn fault_counts(thorough: bool) -> (u64, u64) {
+    if thorough { (90, 30) } else { (15, 9) }
+}
+
+fn fault_plan_of(seed: u64, i: u64, thorough: bool) -> ConcPlan {
+    let (n_free, _) = fault_counts(thorough);
+    if i < n_free {
+        fault_plan(seed, i, thorough)
+    } else {
+        directed_fault_plan(seed, i, 3 + ((i - n_free) % 3) as u8)
+    }
+}
+
+fn run_concurrent_faults(args: &Args, rec: &mut Recorder, dir: &str) {
+    let (n_free, n_dir) = fault_counts(args.thorough);
+    for i in 0..(n_free + n_dir) {
+        if !rec.wants() {
+            rec.skip();
+            continue;
+        }
+        let plan = fault_plan_of(args.seed, i, args.thorough);
+        let path = format!("{}/fault-{}.log", dir, i);
+        let nt = Some(fnv(format!("fault {} {} {}", i, plan.desc, plan.threads.iter().flatten().map(|b| groups_tok(&[vec![b.clone()]])).collect::<Vec<_>>().join(" ")).as_bytes()));
+        rec.count("conc.fault.runs");
+        let f = plan.fault.as_ref().unwrap();
+        rec.count(&format!("conc.fault.spec.{}", f.kind));
+        rec.count(if f.real { "conc.fault.mode.system_call_made_then_failure_reported" } else { "conc.fault.mode.no_system_call" });
+        if plan.directed == 0 {
+            rec.count(&format!("conc.fault.threads_{}", plan.threads.len()));
+        }
+        // a directed schedule that was not reached is staged again (the verdict of the attempt
+        // that is kept does not depend on it: the oracle holds in every schedule)
+        let mut attempt = 0;
+        loop {
+            attempt += 1;
+            let saved = rec.counters.clone();
+            let out = match conc_execute(&plan, &path, None) {
+                Ok(run) => Ok(conc_analyse(rec, &plan, &path, &run, None)),
+                Err(m) => Err(m),
+            };
+            let _ = std::fs::remove_file(&path);
+            let retry = plan.directed != 0 && attempt < 4 && matches!(&out, Ok(o) if !o.conclusive && matches!(o.verdict, Verdict::Ok));
+            if retry {
+                rec.counters = saved;
+                rec.count("conc.fault.directed.attempts_repeated");
+                continue;
+            }
+            match out {
+                Ok(out) => rec.case(&out.req, &out.obs, out.verdict, nt),
+                Err(m) => rec.case("log w", "panic", Verdict::Fail { class: "concurrent-panic".into(), detail: format!("[{}] {}", plan.desc, m) }, nt),
+            }
+            break;
+        }
+    }
+}
+
 pub fn run(args: &Args) {
     if args.rest.first().map(|s| s.as_str()) == Some("--conc-child") {
         conc_child(args);
@@ -2016,9 +2622,10 @@ pub fn run(args: &Args) {
     run_sequential(args, &mut rec);
     run_concurrent(args, &mut rec, &dir);
     run_padding(args, &mut rec);
+    run_concurrent_faults(args, &mut rec, &dir);
     let _ = std::fs::remove_dir_all(&dir);
     rec.finish(
-        "seven seeded streams: small batch sequences; >=1 MiB files whose frames end 0..21 bytes before a block boundary / on it / 1..24 and many bytes past it, tiny (8-byte) and maximal (MAX_BATCH_SIZE-1..BLOCK_SIZE) batches; every truncation of small files; every cut within +-64 (thorough +-96) bytes of every frame/header/padding/block boundary near the block boundary of >=1 MiB files; header/length/padding mutations of small files (reader correspondence only); directed padding (a frame ending exactly 1..=19 bytes before a block boundary followed by an append that does not fit, and split appends whose FIRST frame is followed by 9/8/7 zero bytes, in the first block and behind a padded first block: every length of real padding read back through the reader's check that skipped bytes are zero); 2..8 threads through ConcurrentLogBuilder on a real file with fsync() callers interleaved, plus two directed schedules (one or two appends, then an fsync() caller, queued behind an fsync leader held inside fdatasync); durability at return observed by an in-process fdatasync probe in every run and by strace in some. Non-trivial = a sequence of >= 2 appends, any boundary/truncation/mutation case, any concurrent run; distinct by request text (concurrent runs: by plan, since the grouping into frames is schedule dependent; counters named conc.sched.* vary between runs of one seed)",
+        "eight seeded streams: small batch sequences; >=1 MiB files whose frames end 0..21 bytes before a block boundary / on it / 1..24 and many bytes past it, tiny (8-byte) and maximal (MAX_BATCH_SIZE-1..BLOCK_SIZE) batches; every truncation of small files; every cut within +-64 (thorough +-96) bytes of every frame/header/padding/block boundary near the block boundary of >=1 MiB files; header/length/padding mutations of small files (reader correspondence only); directed padding (a frame ending exactly 1..=19 bytes before a block boundary followed by an append that does not fit, and split appends whose FIRST frame is followed by 9/8/7 zero bytes, in the first block and behind a padded first block: every length of real padding read back through the reader's check that skipped bytes are zero); 2..8 threads through ConcurrentLogBuilder on a real file with fsync() callers interleaved, plus two directed schedules (one or two appends, then an fsync() caller, queued behind an fsync leader held inside fdatasync); durability at return observed by an in-process fdatasync probe in every run and by strace in some; the same with a FAILING fdatasync (stream 8: the probe makes the k-th call of the log, every call from the k-th on, or one in the middle return -1/EIO, with or without making the system call; free-running 2..8 threads, and three directed schedules: two appends of one coalesced write whose first fdatasync fails while the other queues for the next round, a failing round of several appenders behind a held leader, a failed leader followed by a successful round), where Ok needs a successfully returned fdatasync, an error needs a failed one in progress, and the observed rounds of the fsync queue are replayed by the model. Non-trivial = a sequence of >= 2 appends, any boundary/truncation/mutation case, any concurrent run; distinct by request text (concurrent runs: by plan, since the grouping into frames is schedule dependent; counters named conc.sched.* vary between runs of one seed)",
         &[],
     );
 }
